@@ -427,8 +427,8 @@ def pool_for(cname, mname, pname, param, recv):
     if pname == 'mask':
         if mname in ('mask_where', 'remask', 'remask_or', '__init__'):
             return omit + [['mask', 'mix'], ['lit', True], ['lit', False], ['mask', 'Boolean'], ['mask', 'aF'],
-                           ['mask', 'bad'], ['lit', None]]
-        return omit + [['lit', True], ['mask', 'mix'], ['lit', False]]
+                           ['mask', 'bad'], ['lit', None], ['mask', 'ma']]
+        return omit + [['lit', True], ['mask', 'mix'], ['lit', False], ['mask', 'ma']]
     if pname == 'antimask':
         return [['mask', 'anti'], ['lit', True], ['lit', False], ['mask', 'aF'], ['mask', 'Boolean']]
     if pname == 'index':
@@ -566,6 +566,12 @@ def build_arg(spec, recv, rdesc, Pm, salt=1):
             return Pm.Boolean(make_mask('mix', shape) if shape else True)
         if rep == 'bad':
             return np.zeros(shape + (2,), bool)
+        if rep == 'ma':
+            # a boolean MaskedArray: its masked entries mean "masked" whatever boolean hides under them
+            if not shape:
+                return np.ma.MaskedArray([False], mask=[True])[0]
+            b = np.asarray(make_mask('mix', shape))
+            return np.ma.MaskedArray(b, mask=np.roll(np.logical_not(b).ravel(), 1).reshape(shape) & (np.arange(b.size).reshape(shape) % 2 == 0))
         if rep == 'anti':
             m = make_mask('mix', shape)
             return np.logical_not(m) if shape else True
